@@ -1202,3 +1202,236 @@ def eliminate_dead_stores(blocks, locals_, argc):
             keep.append(s)
         b["stmts"] = keep[::-1]
     return removed
+
+
+# -------------------------------------------------------------------------------------------------
+# scalar replacement of aggregate fields (reads only)
+# -------------------------------------------------------------------------------------------------
+_NONE_PRODUCERS = re.compile(r"FromResidual<.*>>::from_residual$|ops::FromResidual::from_residual$")
+_TRY_BRANCH = re.compile(r"ops::Try>::branch$|ops::Try::branch$")
+_FAIL = object()
+
+
+def scalarize_fields(blocks, locals_, argc):
+    """`t = (a, b); o = Some(move t); x = move o; … (x as Some).0.1 …`  ->  `… b …`.
+
+    A read of a field path of a local is replaced by the operand stored there when that operand is
+    the same on every definition that can reach the read: definitions are opened through whole-local
+    copies / moves, aggregate expressions (tuples, struct and enum constructors) and `Try::branch`
+    (`(branch(x) as Continue).0` is the payload of `x`); a definition that builds a *different*
+    variant than the one the path downcasts to (a `None`, a residual) cannot be what the read sees
+    and is skipped. The replacement is a constant or a place rooted in a local assigned exactly
+    once. Helpers returning tuples / Options of slices then read, once inlined, like code written in
+    place."""
+    defs = {}
+    part = set()
+    for bi, b in enumerate(blocks):
+        for s in b["stmts"]:
+            if s["k"] == "assign":
+                if s["lhs"]["p"]:
+                    part.add(s["lhs"]["l"])
+                else:
+                    defs.setdefault(s["lhs"]["l"], []).append(("stmt", s))
+            elif s["k"] == "setdiscr":
+                part.add(s["lhs"]["l"])
+        t = b["term"]
+        if t and t["k"] in ("call", "yield"):
+            d = t.get("dest") if t["k"] == "call" else t.get("resume_arg")
+            if isinstance(d, dict):
+                if d["p"]:
+                    part.add(d["l"])
+                else:
+                    defs.setdefault(d["l"], []).append(("call", t))
+        if t and t["k"] == "goto" and t.get("sugar_site") and isinstance(t["sugar_site"].get("dest"), dict):
+            d = t["sugar_site"]["dest"]
+            defs.setdefault(d["l"], []).append(("call", t["sugar_site"]))
+    mut_borrowed = set()
+    for b in blocks:
+        for s in b["stmts"]:
+            if s["k"] == "assign" and s["rv"]["k"] in ("ref", "rawptr") and (s["rv"].get("mut") or s["rv"]["k"] == "rawptr"):
+                mut_borrowed.add(s["rv"]["place"]["l"])
+
+    def stable(l):
+        if l in part or l in mut_borrowed:
+            return False
+        n = len(defs.get(l, []))
+        return n == 1 or (n == 0 and 1 <= l <= argc)
+
+    def is_dc(e):
+        return isinstance(e, dict) and "dc" in e
+
+    def is_f(e):
+        return isinstance(e, dict) and "f" in e
+
+    def same(a, b):
+        return a == b
+
+    def find_value(l, path, depth, seen):
+        """candidates for the value read at `l.path`: list of operands ({"k":..} constants or
+        {"c": place}); _FAIL if it cannot be narrowed down"""
+        key = (l, len(path))
+        if depth > 12 or key in seen or l in part or l in mut_borrowed:
+            return _FAIL
+        if not path:
+            return [{"c": {"l": l, "p": []}}] if stable(l) else _FAIL
+        if not (is_dc(path[0]) or is_f(path[0])):
+            return [{"c": {"l": l, "p": list(path)}}] if stable(l) else _FAIL
+        seen = seen | {key}
+        ds = defs.get(l, [])
+        if not ds:
+            return [{"c": {"l": l, "p": list(path)}}] if stable(l) else _FAIL
+        out = []
+
+        def add(c):
+            if not any(same(c, o) for o in out):
+                out.append(c)
+        for kind, x in ds:
+            if kind == "call":
+                nm = (x.get("res") or x.get("def") or "")
+                if is_dc(path[0]) and _NONE_PRODUCERS.search(nm):
+                    continue
+                if _TRY_BRANCH.search(nm) and len(path) >= 2 and is_dc(path[0]) and str(path[0]["dc"]) == "Continue" and is_f(path[1]) and str(path[1]["f"]) == "0" and x.get("args"):
+                    apl = operand_place(x["args"][0])
+                    if apl is None or any(not (is_dc(e) or is_f(e)) for e in apl["p"]):
+                        return _FAIL
+                    aty = locals_[apl["l"]].get("ty") or ""
+                    if apl["p"]:
+                        return _FAIL
+                    if aty.startswith("std::option::Option<"):
+                        v = "Some"
+                    elif aty.startswith("std::result::Result<"):
+                        v = "Ok"
+                    else:
+                        return _FAIL
+                    r = find_value(apl["l"], [{"dc": v}, {"f": "0"}] + list(path[2:]), depth + 1, seen)
+                    if r is _FAIL:
+                        return _FAIL
+                    for c in r:
+                        add(c)
+                    continue
+                if len(ds) == 1 and stable(l):
+                    return [{"c": {"l": l, "p": list(path)}}]
+                return _FAIL
+            rv = x["rv"]
+            if rv["k"] == "use":
+                pl = operand_place(rv["op"])
+                if pl is None:
+                    return _FAIL
+                if any(not (is_dc(e) or is_f(e)) for e in pl["p"]):
+                    if len(ds) == 1 and stable(l):
+                        return [{"c": {"l": l, "p": list(path)}}]
+                    return _FAIL
+                r = find_value(pl["l"], list(pl["p"]) + list(path), depth + 1, seen)
+                if r is _FAIL:
+                    if len(ds) == 1 and stable(l):
+                        return [{"c": {"l": l, "p": list(path)}}]
+                    return _FAIL
+                for c in r:
+                    add(c)
+            elif rv["k"] == "agg" and rv.get("agg") in ("adt", "tuple"):
+                q = list(path)
+                if is_dc(q[0]):
+                    if rv.get("agg") != "adt":
+                        return _FAIL
+                    if str(rv.get("variant")) != str(q[0]["dc"]):
+                        continue            # another variant: not what a read through this downcast sees
+                    q = q[1:]
+                if not q or not is_f(q[0]):
+                    return _FAIL
+                f = str(q[0]["f"])
+                names = [str(n) for n in (rv.get("fields") or [])]
+                ops = rv["ops"]
+                if names and f in names:
+                    k = names.index(f)
+                elif not names and f.isdigit():
+                    k = int(f)
+                else:
+                    return _FAIL
+                if k >= len(ops):
+                    return _FAIL
+                op = ops[k]
+                rest = q[1:]
+                opl = operand_place(op)
+                if opl is None:
+                    if rest:
+                        return _FAIL
+                    add(op)
+                    continue
+                if any(not (is_dc(e) or is_f(e)) for e in opl["p"]):
+                    return _FAIL
+                r = find_value(opl["l"], list(opl["p"]) + rest, depth + 1, seen)
+                if r is _FAIL:
+                    return _FAIL
+                for c in r:
+                    add(c)
+            else:
+                if len(ds) == 1 and stable(l):
+                    return [{"c": {"l": l, "p": list(path)}}]
+                return _FAIL
+        return out
+
+    count = [0]
+
+    def resolve(place):
+        p = place["p"]
+        if not p or not (is_dc(p[0]) or is_f(p[0])):
+            return None
+        # the leading run of field / downcast projections
+        k = 0
+        while k < len(p) and (is_dc(p[k]) or is_f(p[k])):
+            k += 1
+        head, tail = p[:k], p[k:]
+        r = find_value(place["l"], head, 0, frozenset())
+        if r is _FAIL or len(r) != 1:
+            return None
+        c = r[0]
+        cpl = operand_place(c)
+        if cpl is None:
+            return None if tail else c
+        new = {"l": cpl["l"], "p": list(cpl["p"]) + list(tail)}
+        if new == place:
+            return None
+        return {"c": new}
+
+    def fix_operand(op):
+        pl = operand_place(op)
+        if pl is None or not pl["p"]:
+            return op
+        r = resolve(pl)
+        if r is None:
+            return op
+        count[0] += 1
+        if "k" in r:
+            return r
+        return {"m" if "m" in op else "c": operand_place(r)}
+
+    def fix_place(pl):
+        if not pl["p"]:
+            return pl
+        r = resolve(pl)
+        if r is None or "k" in r:
+            return pl
+        count[0] += 1
+        return operand_place(r)
+
+    for b in blocks:
+        if b.get("cleanup"):
+            continue
+        for s in b["stmts"]:
+            if s["k"] != "assign":
+                continue
+            rv = s["rv"]
+            for k in ("op", "a", "b"):
+                if isinstance(rv.get(k), dict) and ("c" in rv[k] or "m" in rv[k]):
+                    rv[k] = fix_operand(rv[k])
+            if rv["k"] in ("ref", "len") and isinstance(rv.get("place"), dict) and not (rv["k"] == "ref" and rv.get("mut")):
+                rv["place"] = fix_place(rv["place"])
+            if "ops" in rv:
+                rv["ops"] = [fix_operand(o) if ("c" in o or "m" in o) else o for o in rv["ops"]]
+        t = b["term"]
+        if t:
+            if isinstance(t.get("op"), dict) and ("c" in t["op"] or "m" in t["op"]):
+                t["op"] = fix_operand(t["op"])
+            if "args" in t:
+                t["args"] = [fix_operand(a) if ("c" in a or "m" in a) else a for a in t["args"]]
+    return count[0]
